@@ -724,6 +724,13 @@ def strided(a):
     return v
 
 
+def neg_stride(a):
+    """A view with negative strides along every axis holding the same numbers."""
+    a = np.asarray(a)
+    rev = tuple(slice(None, None, -1) for _ in a.shape)
+    return np.ascontiguousarray(a[rev])[rev]
+
+
 def data_variants_1d(y, stack=False):
     """(tag, object, float64 array the computation must be identical to, expected output dtype)"""
     yi = np.round(y)
@@ -737,20 +744,22 @@ def data_variants_1d(y, stack=False):
                 ('col-F', np.asfortranarray(y[:, None]), y, np.float64)]
     else:
         out += [('F-order', np.asfortranarray(y), y, np.float64)]
+    out += [('neg-stride', neg_stride(y), y, np.float64)]
     return out
 
 
 def x_variants(x):
     return [('x-list', x.tolist(), x), ('x-tuple', tuple(x.tolist()), x), ('x-col', x[:, None], x),
             ('x-row', x[None, :], x), ('x-strided', strided(x), x),
-            ('x-float32', x.astype(np.float32), x.astype(np.float32).astype(np.float64))]
+            ('x-float32', x.astype(np.float32), x.astype(np.float32).astype(np.float64)),
+            ('x-neg-stride', neg_stride(x), x)]
 
 
 def arr_variants(w):
     wi = np.round(w * 4)
     return [('list', w.tolist(), w), ('col', w[:, None], w), ('row', w[None, :], w), ('strided', strided(w), w),
             ('float32', w.astype(np.float32), w.astype(np.float32).astype(np.float64)),
-            ('int', wi.astype(np.int64), wi)]
+            ('int', wi.astype(np.int64), wi), ('neg-stride', neg_stride(w), w)]
 
 
 def setup_1d(name, x, y):
@@ -764,7 +773,8 @@ def setup_1d(name, x, y):
     return data, kw
 
 
-LAYOUT_2D = {'data=F-order', 'data=transposed-view', 'data=MN1-F', 'data=strided', 'weights=F-order', 'weights=strided'}
+LAYOUT_2D = {'data=F-order', 'data=transposed-view', 'data=MN1-F', 'data=strided', 'data=neg-stride', 'weights=F-order',
+             'weights=strided', 'weights=neg-stride'}
 LOOSE_TOL = 1e-6
 
 
@@ -845,7 +855,7 @@ class Oracle:
         rng = ctx.rng
         # data variants
         dvs = data_variants_1d(data, stack)
-        for tag, obj, ref, odt in (dvs if full else dvs[:3] + rng.sample(dvs[3:], 3)):
+        for tag, obj, ref, odt in (dvs if full else dvs[:3] + dvs[-1:] + rng.sample(dvs[3:-1], 3)):
             if ref is data:
                 wb, wp = bb, bp
             else:
@@ -855,9 +865,18 @@ class Oracle:
                 wb, wp = r
             got, e = quiet(lambda: call(x, obj))
             self.check('1d', name, f'data={tag}', got, e, wb, wp, dict(case0, variant=f'data={tag}'), expect_dtype=odt)
+        # extreme but legal magnitudes: the container must not matter there either
+        for sc in (1e-150, 1e150):
+            big = data * sc
+            r, e = quiet(lambda: call(x, big))
+            if e is not None or not np.all(np.isfinite(r[0])):
+                continue
+            for tag, obj in (('list', big.tolist()), ('neg-stride', neg_stride(big))) + ((('col', big[:, None]),) if not stack else ()):
+                got, e = quiet(lambda: call(x, obj))
+                self.check('1d', name, f'data*{sc:g}={tag}', got, e, r[0], r[1], dict(case0, variant=f'data*{sc:g}={tag}'))
         # x variants
         xvs = x_variants(x)
-        for tag, obj, ref in (xvs if full else rng.sample(xvs, 3)):
+        for tag, obj, ref in (xvs if full else xvs[-1:] + rng.sample(xvs[:-1], 3)):
             if ref is x:
                 wb, wp = bb, bp
             else:
@@ -925,7 +944,7 @@ class Oracle:
             if e0 is not None:
                 continue
             avs = arr_variants(w)
-            for tag, obj, ref in (avs if full else [avs[4]] + rng.sample(avs[:4] + avs[5:], 2)):
+            for tag, obj, ref in (avs if full else [avs[4], avs[-1]] + rng.sample(avs[:4] + avs[5:-1], 2)):
                 if ref is w:
                     wb, wp = r0
                 else:
@@ -1004,14 +1023,14 @@ class Oracle:
         rng = ctx.rng
         yi = np.round(data)
         dvs = [('list', data.tolist(), data, np.float64), ('F-order', np.asfortranarray(data), data, np.float64),
-               ('strided', strided(data), data, np.float64), ('transposed-view', np.ascontiguousarray(data.swapaxes(-1, -2)).swapaxes(-1, -2), data, np.float64),
+               ('strided', strided(data), data, np.float64), ('neg-stride', neg_stride(data), data, np.float64), ('transposed-view', np.ascontiguousarray(data.swapaxes(-1, -2)).swapaxes(-1, -2), data, np.float64),
                ('float32', data.astype(np.float32), data.astype(np.float32).astype(np.float64), np.float32),
                ('int64', yi.astype(np.int64), yi, np.int64)]
         if not stack:
             dvs += [('MN1', data[:, :, None], data, np.float64), ('1MN', data[None, :, :], data, np.float64),
                     ('M1N', data[:, None, :], data, np.float64),
                     ('MN1-F', np.asfortranarray(data[:, :, None]), data, np.float64)]
-        for tag, obj, ref, odt in (dvs if full else dvs[:2] + rng.sample(dvs[2:], 4)):
+        for tag, obj, ref, odt in (dvs if full else dvs[:2] + dvs[3:4] + rng.sample(dvs[2:3] + dvs[4:], 4)):
             if ref is data:
                 wb, wp = bb, bp
             else:
@@ -1055,7 +1074,7 @@ class Oracle:
             w = np.round(0.25 + 0.75 * nrng.random((Mx, Nz)), 3)
             r0, e0 = quiet(lambda: call(x, z, data, kws=dict(kw, weights=w)))
             if e0 is None:
-                for tag, obj in (('list', w.tolist()), ('F-order', np.asfortranarray(w)), ('strided', strided(w))):
+                for tag, obj in (('list', w.tolist()), ('F-order', np.asfortranarray(w)), ('strided', strided(w)), ('neg-stride', neg_stride(w))):
                     got, e = quiet(lambda: call(x, z, data, kws=dict(kw, weights=obj)))
                     self.check('2d', name, f'weights={tag}', got, e, r0[0], r0[1], dict(case0, variant=f'weights={tag}'))
                 w32 = w.astype(np.float32)
@@ -1132,6 +1151,8 @@ def oracle_repeat(ctx, orc, budget):
                 if e0 is not None:
                     continue
                 dd = dv if fname != 'collab_pls' else data
+                if step == 1:
+                    quiet(lambda: f(data=np.asarray(dd)[:5], x_data=xbuf, **kw))      # a rejected call in the history
                 got, e = quiet(lambda: f(data=dd, x_data=xbuf, **kw))
                 orc.check('1d', name, f'function-repeated:x={tag}:call{step + 1}', got, e, want[0], want[1], case)
 
@@ -1281,6 +1302,9 @@ def oracle(ctx, budget):
             orc.run_2d(name, Mx, Nz, k)
     oracle_repeat(ctx, orc, budget)
     n_names = oracle_method_names(ctx, orc, budget)
+    from . import c16_calls
+    n_calls = c16_calls.oracle_call_shapes(ctx, orc, budget)
+    ctx.note(f'functional interface with several non-default keywords (every prefix of the parameter list, pairs, full set): {n_calls} comparisons')
     from . import c16_arrays
     n_arr = c16_arrays.oracle_array_params(ctx, orc, budget)
     c16_arrays.regressions(ctx, orc)
@@ -1370,6 +1394,26 @@ def replay(rep):
             orc.run_2d(case['method'], case['N'][0], case['N'][1], case['seedk'])
         hits = [v for v in ctx.violations if v[0] == rep.get('key')]
         for key, what, _ in (hits or ctx.violations):
+            print('replay:', key, what)
+        if not ctx.violations:
+            print('replay: property holds on this input')
+        return 1 if ctx.violations else 0
+    if case.get('kind') == 'oracle-call-shape':
+        from . import c16_calls
+
+        class _Stub6:
+            def __init__(self, seed):
+                self.seed, self.rng, self.violations, self.extra = seed, random.Random(f'{PROP}-{seed}'), [], {}
+
+            def case(self, *a, **k):
+                pass
+
+            def fail(self, key, what, case):
+                self.violations.append((key, what, case))
+        ctx = _Stub6(rep.get('seed', 0))
+        c16_calls.oracle_call_shapes(ctx, Oracle(ctx, 3), 3, only=case['method'])
+        hits = [v for v in ctx.violations if v[0] == rep.get('key')] or ctx.violations
+        for key, what, _ in hits[:5]:
             print('replay:', key, what)
         if not ctx.violations:
             print('replay: property holds on this input')
